@@ -97,6 +97,8 @@ def ob_blocking_batch(batch):
         for k in ("paths", "branches", "checks", "claims"):
             agg[k] += d.get(k, 0)
         agg["solver_s"] += d.get("solver_s", 0.0)
+        from vk import sym as _sym
+        _sym.merge_xcheck(agg, d)
         if d.get("notes", {}).get("blocking_paths"):
             agg["blocking_shapes"] += 1
         if d.get("notes", {}).get("crash"):
